@@ -217,9 +217,10 @@ theorem get?_erase_other {κ ν : Type} [DecidableEq κ] (m : AList κ ν) (k k'
     · simp only [h1, if_false, get?_cons, ih]
 
 /-- what `remove_liquidity(collect=False)` + `collect_fee(collect_to_user=False)` do to a position that the pool
-    holds, with the pool open and both tokens in the wallet: everything it is worth is handed out and it is deleted -/
+    holds, with both tokens in the wallet — whether the pool market is open or closed on this bar (`_redeem_uni_token`
+    opens the write gate for its own calls): everything it is worth is handed out and it is deleted -/
 theorem uniRedeem_vault (e : Env) (s : State) (pos : PosKey) (p : UPos) (bo bw : Rat)
-    (hp : AList.get? s.positions pos = some p) (ho : e.uniOpen = true)
+    (hp : AList.get? s.positions pos = some p)
     (hbo : AList.get? s.wallet sqOsqthName = some bo) (hbw : AList.get? s.wallet sqWethName = some bw) :
     ∃ s6, uniRedeem NumCtx.exact e s pos false =
         (.ok s6, p.pending0 + (closePosition NumCtx.exact (uniSqrtP NumCtx.exact e.uniPrice) pos.1 pos.2 p.liquidity sqWethDecimals sqOsqthDecimals).1,
@@ -227,7 +228,7 @@ theorem uniRedeem_vault (e : Env) (s : State) (pos : PosKey) (p : UPos) (bo bw :
       s6.wallet = s.wallet ∧ s6.vaults = s.vaults ∧ s6.maxId = s.maxId ∧ AList.get? s6.positions pos = none ∧
       (∀ k, k ≠ pos → AList.get? s6.positions k = AList.get? s.positions k) := by
   unfold uniRedeem
-  simp only [ho, Bool.not_true, Bool.false_eq_true, if_false, hp, State.setPos, State.record, hbo, hbw,
+  simp only [Bool.false_and, Bool.false_eq_true, if_false, hp, State.setPos, State.record, hbo, hbw,
     NumCtx.exact_add, NumCtx.exact_sub, sub_self, and_self, if_true]
   refine ⟨_, rfl, rfl, rfl, rfl, ?_, ?_⟩
   · simp only [get?_erase_self]
@@ -236,13 +237,14 @@ theorem uniRedeem_vault (e : Env) (s : State) (pos : PosKey) (p : UPos) (bo bw :
 
 end Squeeth
 
-/-- **LP collateral is redeemed first, with a 2 % bounty** (`_reduce_debt(vault, pay_bounty=True)`): the position's
+/-- **LP collateral is redeemed first, with a 2 % bounty** (`_reduce_debt(vault, pay_bounty=True)`) — on every bar, also
+    one on which the pool market is closed (no hypothesis on `e.uniOpen`): the position's
     WETH (liquidity + pending) joins the collateral, its oSQTH burns debt (any excess goes to the wallet), the
     bounty `(oSQTH × twap + WETH) × 2 %` — at most the ETH then in the vault — is deducted, the position leaves the
     pool and the vault. -/
 theorem C14_reduce_debt_rule (e : Env) (s : State) (vk : Nat) (v : Vault) (pos : PosKey) (p : UPos) (bo bw wEth wOsqth : Rat)
     (hv : AList.get? s.vaults vk = some v) (hn : v.nft = some pos) (hp : AList.get? s.positions pos = some p)
-    (ht : p.transferred = true) (ho : e.uniOpen = true)
+    (ht : p.transferred = true)
     (hbo : AList.get? s.wallet sqOsqthName = some bo) (hbw : AList.get? s.wallet sqWethName = some bw)
     (hwe : p.pending0 + (closePosition NumCtx.exact (uniSqrtP NumCtx.exact e.uniPrice) pos.1 pos.2 p.liquidity
             sqWethDecimals sqOsqthDecimals).1 = wEth)
@@ -259,7 +261,7 @@ theorem C14_reduce_debt_rule (e : Env) (s : State) (vk : Nat) (v : Vault) (pos :
   have hp' : AList.get? (s.setPos pos { p with transferred := false }).positions pos = some { p with transferred := false } := by
     unfold State.setPos; simp only [get?_set_self]
   obtain ⟨s6, hr, hw, hvs, _, hpos, _⟩ := uniRedeem_vault e (s.setPos pos { p with transferred := false }) pos
-    { p with transferred := false } bo bw hp' ho hbo hbw
+    { p with transferred := false } bo bw hp' hbo hbw
   simp only [hwe, hwo] at hr
   have hb : (if (wOsqth * twap e .osqth + wEth) * (2 / 100) > v.coll + wEth then v.coll + wEth
              else (wOsqth * twap e .osqth + wEth) * (2 / 100)) = min ((wOsqth * twap e .osqth + wEth) * (2 / 100)) (v.coll + wEth) := by
